@@ -299,14 +299,16 @@ PROPS["C03"] = {
             "percent signs, non-UTF-8 bytes) placed in one carrier: query string and urlencoded body (hand-written encoder with a generated "
             "per-byte choice of raw / %XX / %xx / '+'), header set, one or several Cookie headers, multipart body with 0..3 files, JSON "
             "documents (nested objects / arrays, duplicate and dotted keys) with their documented flattening, XML documents (attributes and "
-            "text); settings: SecArgumentsLimit 1..3 or 1000, body limit below/above the body with both limit actions; unparseable variants "
+            "text); settings: SecArgumentsLimit 1..3 or 1000, body limit below/above the body with both limit actions, for JSON a depth "
+            "limit of 1..4 (or the default) so that documents nested deeper than the limit occur with siblings after the deep part; unparseable variants "
             "(truncated, one delimiter dropped); oracle = round trip through probe rules (SecRule VAR @unconditionalMatch) as multisets of "
             "(key, value), with the statement's escape clause: a difference is accepted only when an error variable is set or the "
             "transaction is interrupted; non-trivial = repeated/case-variant name, empty name or value, delimiter byte in the data, body "
             "limit below the size, or unparseable input",
     "essential": {"all": ["carrier:query", "carrier:urlencoded", "carrier:headers", "carrier:cookies", "carrier:multipart", "carrier:json", "carrier:xml",
                           "dup-or-case-variant-name", "empty-name-or-value", "delimiter-byte-in-data", "body-limit-below-size:Reject",
-                          "body-limit-below-size:ProcessPartial", "unparseable:json", "multipart-files", "error-flagged", "content-type-with-parameter", "uploads-sharing-a-file-name", "body-split-at-limit"]},
+                          "body-limit-below-size:ProcessPartial", "unparseable:json", "multipart-files", "error-flagged", "content-type-with-parameter", "uploads-sharing-a-file-name", "body-split-at-limit",
+                          "json-depth-limit-flagged", "json-within-depth-limit"]},
     "assumptions": COMMON_ASSUME + [
         "only data encodable in the carrier is generated (cookie names/values without ';' and surrounding blanks, multipart names without CR/LF/quote, control and non-ASCII bytes always percent-encoded in the request line)",
         "three known findings are excluded by construction while their witnesses still fail (arguments over the limit, colliding JSON keys, multipart without closing boundary)",
